@@ -55,13 +55,8 @@ MODEL_SCOPE = ('modelled: SpectralInformation.__init__ (argsort, overlap and bau
 G = S.G
 CBAND = (191_300_000_000_000, 196_100_000_000_000)
 WIDE = [(185_900_000_000_000, 190_400_000_000_000), (190_900_000_000_000, 196_400_000_000_000)]
-MB = {'std_medium_gain_multiband': ['std_medium_gain_C', 'std_medium_gain_L'],
-      'std_low_gain_multiband': ['std_low_gain', 'std_low_gain_L'],
-      'std_low_gain_multiband_reduced': ['std_low_gain_reduced', 'std_low_gain_L'],
-      'std_low_gain_multiband_reduced_bis': ['std_low_gain_bis', 'std_low_gain_L_reduced_band'],
-      'std_low_gain_multiband_ter': ['std_low_gain', 'std_low_gain_L_ter']}
-SINGLE = ['std_low_gain', 'std_low_gain_reduced_band', 'std_medium_gain_C', 'std_low_gain_bis', 'std_low_gain_L',
-          'std_low_gain_L_reduced_band', 'std_medium_gain_L']
+MB = S.MB
+SINGLE = S.SINGLE
 
 
 # ---------------------------------------------------------------------------------------------------------------------
@@ -227,45 +222,7 @@ def gen_malformed(rng, tier):
 # ---------------------------------------------------------------------------------------------------------------------
 # networks for the path cases
 # ---------------------------------------------------------------------------------------------------------------------
-_nets = {}
-
-
-def _amp_json(uid, kind):
-    if kind[0] == 'mb':
-        return {'uid': uid, 'type': 'Multiband_amplifier', 'type_variety': kind[1], 'metadata': nets.loc(),
-                'amplifiers': [{'type_variety': v, 'operational': {'gain_target': 20.0, 'delta_p': 0, 'out_voa': 1.0,
-                                                                   'tilt_target': 0.0}} for v in MB[kind[1]]]}
-    return {'uid': uid, 'type': 'Edfa', 'type_variety': kind[1], 'metadata': nets.loc(),
-            'operational': {'gain_target': 18.0, 'delta_p': 0, 'tilt_target': 0, 'out_voa': 0}}
-
-
-def chain_net(hops):
-    """designed ROADM chain (eqpt_config_multiband.json): hop h = amp (fibre amp)* between roadm h and roadm h+1, both
-    directions; cached per description"""
-    key = repr(hops)
-    if key not in _nets:
-        from gnpy.tools.json_io import network_from_json
-        from gnpy.tools.worker_utils import designed_network
-        n = len(hops) + 1
-        els, cxs = [], []
-        for i in range(n):
-            els += [nets.trx(f'trx {i}'), nets.roadm(f'roadm {i}')]
-            cxs += [nets.cx(f'trx {i}', f'roadm {i}'), nets.cx(f'roadm {i}', f'trx {i}')]
-        for h, hop in enumerate(hops):
-            for d, (a, b) in (('e', (h, h + 1)), ('w', (h + 1, h))):
-                ln = []
-                for i in range(hop['namp']):
-                    ln.append(_amp_json(f'amp {d}{h}.{i}', hop['amp']))
-                    if i < hop['namp'] - 1:
-                        ln.append(nets.fiber(f'fiber {d}{h}.{i}', 80.0, 'SSMF', con_in=0.5, con_out=0.5))
-                nets.chain(els, cxs, f'roadm {a}', f'roadm {b}', ln)
-        eq = nets.eqpt('eqpt_config_multiband.json')
-        net = network_from_json({'elements': els, 'connections': cxs}, eq)
-        net, _, _ = designed_network(eq, net, source='trx 0', destination=f'trx {n - 1}')
-        if len(_nets) > 40:
-            _nets.clear()
-        _nets[key] = (eq, net)
-    return _nets[key]
+chain_net = S.mb_chain_net
 
 
 def _net_of(case):
